@@ -361,14 +361,12 @@ func (i InfixExpression) PrettyPrint(out *PrintState) *PrintState {
 		out.Print("(")
 	}
 	i.Left.PrettyPrint(out)
-	if out.Compact {
+	if out.Compact || i.Right == nil {
 		out.Print(i.Literal())
 	} else {
 		out.Print(" ", i.Literal(), " ")
 	}
-	if i.Right == nil {
-		out.Print("nil")
-	} else {
+	if i.Right != nil { // nil for the open ended a[n:], printed as such.
 		// Binary operators are parsed left associative: a right operand of the
 		// same precedence, like in a - (b - c), must keep its parentheses.
 		// Only a repeated associative operator, like 1 + (2 + 3), can drop them.
